@@ -372,6 +372,10 @@ func genMsgCase(t *rapid.T) MsgCase {
 	case 0:
 		w := rapid.OneOf(rapid.Uint32(), rapid.SampledFrom([]uint32{0, 0x80000000, 0x80010000, 0x80020000, 0x00010000, 0x80010001, 0x7fff0000, 0xffff0000, 0x8001ffff, 0x80000001})).Draw(t, "word")
 		c.Word = &w
+		if rapid.Bool().Draw(t, "wordAndCut") {
+			// a header that is both cut short and lacks the marker: once the first word is there, it is bad-version
+			c.Cut = rapid.OneOf(rapid.IntRange(4, 8), rapid.IntRange(4, 11+c.Name.L)).Draw(t, "cutw")
+		}
 	case 1:
 		hl := 12 + c.Name.L
 		c.Cut = rapid.IntRange(0, hl-1).Draw(t, "cut")
@@ -395,7 +399,7 @@ func genMsgCase(t *rapid.T) MsgCase {
 }
 
 func TestC12_Random(t *testing.T) {
-	rec := evid.New("C12", "c12_random", "rapid: method names of 0..300/4096/70000 arbitrary bytes, message types 0..65535, any sequence id; the three header writers vs the reference bytes and MessageBeginLength; both readers (stream reader under generated fragmentation) must return the same name/type/seq and the exact length; first word replaced by arbitrary/boundary values (must fail as BAD_VERSION unless the upper half is 0x8001); every strict prefix must fail; MarshalFastMsg/UnmarshalFastMsg round trip with Base/BaseResp/ApplicationException payloads incl. the EXCEPTION branch and the empty-method error; non-trivial = non-empty name with a split stream read, a rejected header, or the EXCEPTION branch")
+	rec := evid.New("C12", "c12_random", "rapid: method names of 0..300/4096/70000 arbitrary bytes, message types 0..65535, any sequence id; the three header writers vs the reference bytes and MessageBeginLength; both readers (stream reader under generated fragmentation) must return the same name/type/seq and the exact length; first word replaced by arbitrary/boundary values (must fail as BAD_VERSION unless the upper half is 0x8001); every strict prefix must fail (as BAD_VERSION when at least the first word is there and lacks the marker, also through UnmarshalFastMsg); MarshalFastMsg/UnmarshalFastMsg round trip with Base/BaseResp/ApplicationException payloads incl. the EXCEPTION branch and the empty-method error; non-trivial = non-empty name with a split stream read, a rejected header, or the EXCEPTION branch")
 	defer rec.Flush()
 	runRapid(t, rec, "c12_message", evid.Pick(30000, 300000), genMsgCase, checkMsg)
 }
